@@ -43,6 +43,24 @@ theorem T16_trotter_time_reversal (a : ℂ) (hs : List (Matrix n n ℂ)) :
     mtrotter (-a) hs * mtrotter a hs = 1 :=
   mtrotter_neg_mul a hs
 
+/-- **First-order consistency, formally, for every list of terms**: with a formal halved step
+`a` (`a² = 0`, commuting with the terms — the dual-number way of taking `d/dt` at `0`) every
+exponential is `1 + a h` and the whole queue is `1 + a (Σh + Σh) = 1 + dt·H`.  Together with
+the time-reversal symmetry (a symmetric consistent one-step method has even order) this is the
+algebraic content of "the error vanishes as dt³". -/
+theorem T16_trotter_first_order {R : Type*} [Ring R] (a : R) (ha : a * a = 0) (hs : List R)
+    (hc : ∀ h ∈ hs, Commute a h) :
+    ((hs ++ hs.reverse).map fun h => 1 + a * h).prod = 1 + a * (hs.sum + hs.sum) :=
+  trotter_first_order a ha hs hc
+
+/-- non-vacuity: a non-zero nilpotent step commuting with two non-commuting-looking terms. -/
+example : ∃ (a : Matrix (Fin 2) (Fin 2) ℤ) (hs : List (Matrix (Fin 2) (Fin 2) ℤ)),
+    a ≠ 0 ∧ a * a = 0 ∧ (∀ h ∈ hs, Commute a h) ∧ hs.length = 2 := by
+  refine ⟨!![0, 1; 0, 0], [!![1, 2; 0, 1], !![3, 5; 0, 3]], by decide, by decide, ?_, rfl⟩
+  intro h hh
+  simp only [List.mem_cons, List.not_mem_nil, or_false] at hh
+  rcases hh with rfl | rfl <;> (show _ * _ = _ * _) <;> decide
+
 /-- the unproved analytic statement: third-order local error of the symmetric step. -/
 def TrotterThirdOrder : Prop :=
   ∀ (m : ℕ) (hs : List (Matrix (Fin m) (Fin m) ℂ)),
